@@ -67,6 +67,16 @@ pub struct Cfg {
 }
 
 /// Wrapper that makes the source claim more bytes than the slice it was given at one read call.
+/// `claim == SHORT_SLICE_LIAR`: from call `at` on, whenever the slice it is given is shorter than the
+/// configured chunk size the source delivers what fits and reports a full chunk. (A reader that
+/// always hands out chunk-sized slices never meets this lie.)
+pub const SHORT_SLICE_LIAR: usize = usize::MAX - 1;
+
+thread_local! {
+    /// the chunk size the harness configured last on this thread's reader (what the liar compares with)
+    static CUR_CHUNK: std::cell::Cell<usize> = const { std::cell::Cell::new(0) };
+}
+
 struct LyingSource<'d> {
     inner: ScriptedSource<'d>,
     lie: Option<(u32, usize)>,
@@ -77,6 +87,13 @@ impl Read for LyingSource<'_> {
     fn read(&mut self, buf: &mut [u8]) -> io::Result<usize> {
         let i = self.calls.get();
         self.calls.set(i + 1);
+        if let Some((at, SHORT_SLICE_LIAR)) = self.lie {
+            let chunk = CUR_CHUNK.with(|c| c.get());
+            if i >= at && buf.len() < chunk {
+                return self.inner.read(buf).map(|n| if n > 0 { chunk } else { 0 });
+            }
+            return self.inner.read(buf);
+        }
         if let Some((at, claim)) = self.lie {
             if at == i {
                 // claims more than it was given, writes nothing
@@ -128,6 +145,7 @@ fn build<'d>(cfg: &Cfg, data: &'d [u8], forced: Vec<(u32, u32)>) -> Result<World
         .record(true);
     let (inner, src) = ScriptedSource::new(scfg, forced);
     let lie_calls = std::rc::Rc::new(std::cell::Cell::new(0));
+    CUR_CHUNK.with(|c| c.set(cfg.chunk0));
     let source = LyingSource { inner, lie: cfg.lie, calls: lie_calls.clone() };
     let (mut reader, base, leftover) = match cfg.ctor {
         Ctor::FromRead => (DeferredReader::from_read(source), 0, 0),
@@ -142,7 +160,10 @@ fn build<'d>(cfg: &Cfg, data: &'d [u8], forced: Vec<(u32, u32)>) -> Result<World
             (DeferredReader::from_buf_reader(br), j, filled - j)
         }
     };
-    reader.set_chunk_size(cfg.chunk0);
+    // chunk0 == 0: the chunk size the constructor chose is left alone
+    if cfg.chunk0 != 0 {
+        reader.set_chunk_size(cfg.chunk0);
+    }
     {
         // what the source told the BufReader while the harness pre-consumed bytes happened before
         // the reader existed: terminal answers are counted from here on
@@ -178,6 +199,7 @@ fn apply(w: &mut World, op: &ROp) -> OpResult {
             OpResult::Unit
         }
         ROp::SetChunk(c) => {
+            CUR_CHUNK.with(|cc| cc.set(*c));
             reader.set_chunk_size(*c);
             OpResult::Unit
         }
@@ -439,6 +461,17 @@ fn key_of(w: &World) -> Vec<u8> {
 fn alphabet(cfg: &Cfg, mode: Mode, w: &World, tier: Tier) -> Vec<ROp> {
     let bl = w.reader.buf_len();
     let pos = w.reader.position();
+    if matches!(cfg.lie, Some((_, SHORT_SLICE_LIAR))) {
+        // long stream, slim alphabet: refills (with every read size), look-ahead and consumption
+        let mut ops = vec![ROp::RequestMore, ROp::Request(3), ROp::ByteAt(1)];
+        for n in [1usize, bl] {
+            if n >= 1 && n <= bl {
+                ops.push(ROp::Advance(n));
+            }
+        }
+        ops.dedup();
+        return ops;
+    }
     let mut ops = vec![ROp::RequestMore, ROp::RequestByte, ROp::CheckIoError];
     for n in [0usize, 1, 2, 3, 7] {
         ops.push(ROp::Request(n));
@@ -581,7 +614,7 @@ pub fn replay_value(cfg: &Cfg, mode: Mode, hist: &[Step]) -> Value {
         "config": format!("{cfg:?}"),
         "cfg": {"n": cfg.n, "fault_at": cfg.fault_at, "fault_kind": cfg.fault_kind, "chunk0": cfg.chunk0, "interrupts": cfg.interrupts, "menu_all": cfg.menu_all,
                  "ctor": match cfg.ctor { Ctor::FromRead => json!("from_read"), Ctor::FromBufReader { cap, consume } => json!({"cap": cap, "consume": consume}) },
-                 "lie": cfg.lie.map(|(a, c)| json!([a, if c == usize::MAX { -1i64 } else { c as i64 }]))},
+                 "lie": cfg.lie.map(|(a, c)| json!([a, if c == usize::MAX { -1i64 } else if c == SHORT_SLICE_LIAR { -2i64 } else { c as i64 }]))},
         "history": hist.iter().map(|s| json!({"op": op_to_json(&s.op), "choices": s.choices.iter().map(|(c, n)| json!([c, n])).collect::<Vec<_>>() })).collect::<Vec<_>>(),
     })
 }
@@ -629,7 +662,7 @@ fn cfg_from_json(v: &Value) -> Cfg {
         interrupts: v["interrupts"].as_u64().unwrap() as u32,
         menu_all: v["menu_all"].as_bool().unwrap_or(false),
         ctor: if v["ctor"].is_string() { Ctor::FromRead } else { Ctor::FromBufReader { cap: v["ctor"]["cap"].as_u64().unwrap() as usize, consume: v["ctor"]["consume"].as_u64().unwrap() as usize } },
-        lie: if v["lie"].is_null() { None } else { Some((v["lie"][0].as_u64().unwrap() as u32, if v["lie"][1].as_i64() == Some(-1) { usize::MAX } else { v["lie"][1].as_u64().unwrap() as usize })) },
+        lie: if v["lie"].is_null() { None } else { Some((v["lie"][0].as_u64().unwrap() as u32, if v["lie"][1].as_i64() == Some(-1) { usize::MAX } else if v["lie"][1].as_i64() == Some(-2) { SHORT_SLICE_LIAR } else { v["lie"][1].as_u64().unwrap() as usize })) },
     }
 }
 
@@ -786,7 +819,7 @@ pub fn configs(mode: Mode, tier: Tier) -> Vec<Cfg> {
                 }
             }
             // BufReader starts: empty, partly and fully consumed internal buffer
-            let caps: &[usize] = tier.pick(&[4][..], &[1, 4, 8][..]);
+            let caps: &[usize] = tier.pick(&[0, 4][..], &[0, 1, 4, 8][..]);
             for &cap in caps {
                 for consume in 0..=cap {
                     if tier == Tier::Quick && !(consume == 0 || consume == 1 || consume == cap) {
@@ -808,6 +841,20 @@ pub fn configs(mode: Mode, tier: Tier) -> Vec<Cfg> {
                     }
                 }
             }
+        }
+    }
+    // the constructors' own chunk size (never overridden by set_chunk_size)
+    for &n in ns {
+        v.push(Cfg { n, fault_at: None, fault_kind: 0, chunk0: 0, ctor: Ctor::FromRead, interrupts: 0, lie: None, menu_all: false });
+        for cap in [0usize, 1, 4] {
+            v.push(Cfg { n, fault_at: None, fault_kind: 0, chunk0: 0, ctor: Ctor::FromBufReader { cap, consume: 0 }, interrupts: 0, lie: None, menu_all: false });
+        }
+    }
+    if mode == Mode::C14 {
+        // a source that over-reports only when it is handed less than a chunk (long enough streams
+        // to fill the initial allocation)
+        for chunk0 in [2usize, 3] {
+            v.push(Cfg { n: tier.pick(9, 12), fault_at: None, fault_kind: 0, chunk0, ctor: Ctor::FromRead, interrupts: 0, lie: Some((0, SHORT_SLICE_LIAR)), menu_all: false });
         }
     }
     if mode == Mode::C09 {
